@@ -20,6 +20,17 @@ package keeper
 //@   ensures made_now: err == nil ==> request.Height == height && request.Consumer == bech(consumer) && request.Oracle == oracle
 //@ end
 
+// The transaction entry point: a request made at height h with interval n (0 included - nothing replaces or rounds
+// the interval the consumer gave) is queued under h+n and nowhere else, so it is served in block h+n+1 (C18).
+//@ func msgServer.RequestRandom(goCtx, msg)
+//@   property C18
+//@   returns resp, err
+//@   requires height >= 0 && msg.BlockInterval <= 9223372036854775807 - height && time > 0
+//@   modifies rqueue, bal, supply
+//@   ensures queued_at_interval: err == nil ==> (forall q:Int :: forall i:Bytes :: q != height + msg.BlockInterval ==> has(rqueue, q, i) == old(has(rqueue, q, i)) && get(rqueue, q, i) == old(get(rqueue, q, i)))
+//@   ensures one_more: err == nil ==> (exists i:Bytes :: has(rqueue, height + msg.BlockInterval, i))
+//@ end
+
 //@ func Keeper.GetRandom(ctx, reqID)
 //@   property C18
 //@   returns random, err
